@@ -64,25 +64,19 @@ fn timestamp_ms(timestamp: SystemTime) -> u64 {
     }
 }
 
-/// Returns the time of the last change of the file status (creation, link count, owner, ...)
-/// on Unix, or the creation time of the file elsewhere, in milliseconds.
-/// A program cannot set it back.
+/// Returns a timestamp that tells the file apart from another file that gets its identifier
+/// (inode number) after this one has been removed, in milliseconds. A program cannot set it.
 fn changed_timestamp_ms(file: &FileMetadata) -> u64 {
-    #[cfg(unix)]
-    {
-        use std::os::unix::fs::MetadataExt;
-        (file.ctime() as u64)
-            .wrapping_mul(1000)
-            .wrapping_add(file.ctime_nsec() as u64 / 1_000_000)
-    }
-    #[cfg(not(unix))]
-    {
-        file.created().map(timestamp_ms).unwrap_or(0)
-    }
+    incarnation_time(file).map(timestamp_ms).unwrap_or(0)
 }
 
-/// Returns the time of the last change of the status of the file, where it is known
-fn changed_time(file: &FileMetadata) -> Option<SystemTime> {
+/// Returns the time the file was created, where the file system records it. Renaming the file,
+/// or changing its owner, permissions or link count leaves it as it is, so the cached hashes
+/// survive that. Elsewhere, returns the time of the last change of the status of the file.
+fn incarnation_time(file: &FileMetadata) -> Option<SystemTime> {
+    if let Ok(created) = file.created() {
+        return Some(created);
+    }
     #[cfg(unix)]
     {
         use std::os::unix::fs::MetadataExt;
@@ -91,7 +85,7 @@ fn changed_time(file: &FileMetadata) -> Option<SystemTime> {
     }
     #[cfg(not(unix))]
     {
-        file.created().ok()
+        None
     }
 }
 
@@ -136,8 +130,8 @@ impl HashCache {
             )
         })?;
 
-        // "2" stands for the layout of the entries, the entries of older versions are not read
-        let tree_id = format!("hash_db2:{:?}:{}", algorithm, transform.unwrap_or("<none>"));
+        // "3" stands for the layout of the entries, the entries of older versions are not read
+        let tree_id = format!("hash_db3:{:?}:{}", algorithm, transform.unwrap_or("<none>"));
         let cache = Arc::new(typed_sled::Tree::open(&db, tree_id));
         let flusher = HashCacheFlusher::start(&cache);
         Ok(HashCache { cache, flusher })
@@ -171,9 +165,9 @@ impl HashCache {
         if is_racy(modified, file.read_at()) {
             return Ok(());
         }
-        // The same applies to the change time, which tells the file apart from another one
-        // that gets its identifier: a file created in the same second has the same change time.
-        if let Some(changed) = changed_time(file) {
+        // The same applies to the time that tells the file apart from another one that gets
+        // its identifier: a file created in the same second has the same time.
+        if let Some(changed) = incarnation_time(file) {
             if is_racy(changed, file.read_at()) {
                 return Ok(());
             }
